@@ -6,8 +6,8 @@
 #define CLK_SEC 1700000000LL
 #define CLK_NSEC 123456789LL
 
-static unsigned char *mac(const char *tok) { size_t n; unsigned char *b = hexbuf(tok, &n); unsigned char *m = __real_malloc(6); memset(m, 0, 6); memcpy(m, b, n < 6 ? n : 6); __real_free(b); return m; }
-static char *cstr_tok(const char *tok) { size_t n; unsigned char *b = hexbuf(tok, &n); char *z = __real_malloc(n + 1); memcpy(z, b, n); z[n] = 0; __real_free(b); return z; }
+static unsigned char *mac(const char *tok) { size_t n; unsigned char *b = hexbuf(tok, &n); unsigned char *m = __real_malloc(6); memset(m, 0, 6); memcpy(m, b, n < 6 ? n : 6); hfree(b); return m; }
+static char *cstr_tok(const char *tok) { size_t n; unsigned char *b = hexbuf(tok, &n); char *z = __real_malloc(n + 1); memcpy(z, b, n); z[n] = 0; hfree(b); return z; }
 
 typedef size_t (*dump_fn)(void *, unsigned char *, size_t);
 typedef size_t (*len_fn)(void *);
@@ -30,7 +30,7 @@ static void dump_once(void *obj, dump_fn df, size_t bl, size_t expect_len, int p
         if (beyond) printf(" BEYOND");
         if (r != expect_len) printf(" LEN-MISMATCH");
     }
-    __real_free(buf);
+    hfree(buf);
 }
 
 static void do_dump(void *obj, dump_fn df, len_fn lf, const char *btok) {
@@ -52,10 +52,10 @@ static void do_dump(void *obj, dump_fn df, len_fn lf, const char *btok) {
                 if (bl < len || r != len || r0 != len || memcmp(buf, ref, len) != 0) bad = 3;
                 for (size_t i = len; i < bl; i++) if (buf[i] != 0xEE) bad = 4;
             }
-            __real_free(buf);
+            hfree(buf);
         }
         if (bad) printf("SWEEP-BAD(%d)", bad); else printf("sweep first_ok=%zu", first_ok);
-        __real_free(ref);
+        hfree(ref);
     } else {
         dump_once(obj, df, (size_t) tok_ll(btok + 1), len, 1);
     }
@@ -71,7 +71,7 @@ static int add_extras(struct libwifi_tagged_parameters *tags, int nt, char **t, 
         int rr;
         LIB(rr = libwifi_quick_add_tag(tags, (int) tok_ll(o + 2), b, n));
         if (rr != 0) r = rr;
-        __real_free(b);
+        hfree(b);
     }
     return r;
 }
@@ -90,15 +90,15 @@ static void op_gen(int nt, char **t) {
     unsigned char *a1 = mac(t[2]), *a2 = mac(t[3]), *a3 = mac(t[4]);
     clk_sec = CLK_SEC; clk_nsec = CLK_NSEC;
     if (!strcmp(k, "beacon")) { char *ss = cstr_tok(t[5]);
-        TAGGED(libwifi_beacon, libwifi_create_beacon(&o, a1, a2, a3, ss, (uint8_t) tok_ll(t[6])), libwifi_dump_beacon, libwifi_get_beacon_length, libwifi_free_beacon); __real_free(ss); }
+        TAGGED(libwifi_beacon, libwifi_create_beacon(&o, a1, a2, a3, ss, (uint8_t) tok_ll(t[6])), libwifi_dump_beacon, libwifi_get_beacon_length, libwifi_free_beacon); hfree(ss); }
     else if (!strcmp(k, "probe_resp")) { char *ss = cstr_tok(t[5]);
-        TAGGED(libwifi_probe_resp, libwifi_create_probe_resp(&o, a1, a2, a3, ss, (uint8_t) tok_ll(t[6])), libwifi_dump_probe_resp, libwifi_get_probe_resp_length, libwifi_free_probe_resp); __real_free(ss); }
+        TAGGED(libwifi_probe_resp, libwifi_create_probe_resp(&o, a1, a2, a3, ss, (uint8_t) tok_ll(t[6])), libwifi_dump_probe_resp, libwifi_get_probe_resp_length, libwifi_free_probe_resp); hfree(ss); }
     else if (!strcmp(k, "probe_req")) { char *ss = cstr_tok(t[5]);
-        TAGGED(libwifi_probe_req, libwifi_create_probe_req(&o, a1, a2, a3, ss, (uint8_t) tok_ll(t[6])), libwifi_dump_probe_req, libwifi_get_probe_req_length, libwifi_free_probe_req); __real_free(ss); }
+        TAGGED(libwifi_probe_req, libwifi_create_probe_req(&o, a1, a2, a3, ss, (uint8_t) tok_ll(t[6])), libwifi_dump_probe_req, libwifi_get_probe_req_length, libwifi_free_probe_req); hfree(ss); }
     else if (!strcmp(k, "assoc_req")) { char *ss = cstr_tok(t[5]);
-        TAGGED(libwifi_assoc_req, libwifi_create_assoc_req(&o, a1, a2, a3, ss, (uint8_t) tok_ll(t[6])), libwifi_dump_assoc_req, libwifi_get_assoc_req_length, libwifi_free_assoc_req); __real_free(ss); }
+        TAGGED(libwifi_assoc_req, libwifi_create_assoc_req(&o, a1, a2, a3, ss, (uint8_t) tok_ll(t[6])), libwifi_dump_assoc_req, libwifi_get_assoc_req_length, libwifi_free_assoc_req); hfree(ss); }
     else if (!strcmp(k, "reassoc_req")) { char *ss = cstr_tok(t[5]); unsigned char *ap = mac(t[7]);
-        TAGGED(libwifi_reassoc_req, libwifi_create_reassoc_req(&o, a1, a2, a3, ap, ss, (uint8_t) tok_ll(t[6])), libwifi_dump_reassoc_req, libwifi_get_reassoc_req_length, libwifi_free_reassoc_req); __real_free(ss); __real_free(ap); }
+        TAGGED(libwifi_reassoc_req, libwifi_create_reassoc_req(&o, a1, a2, a3, ap, ss, (uint8_t) tok_ll(t[6])), libwifi_dump_reassoc_req, libwifi_get_reassoc_req_length, libwifi_free_reassoc_req); hfree(ss); hfree(ap); }
     else if (!strcmp(k, "assoc_resp"))
         TAGGED(libwifi_assoc_resp, libwifi_create_assoc_resp(&o, a1, a2, a3, (uint8_t) tok_ll(t[6])), libwifi_dump_assoc_resp, libwifi_get_assoc_resp_length, libwifi_free_assoc_resp);
     else if (!strcmp(k, "reassoc_resp"))
@@ -113,11 +113,11 @@ static void op_gen(int nt, char **t) {
         struct libwifi_timing_advert_fields f; memset(&f, 0, sizeof f);
         size_t n; unsigned char *b;
         f.timing_capabilities = (uint8_t) tok_ll(t[5]);
-        b = hexbuf(t[6], &n); memcpy(f.time_value, b, n < 10 ? n : 10); __real_free(b);
-        b = hexbuf(t[7], &n); memcpy(f.time_error, b, n < 5 ? n : 5); __real_free(b);
-        b = hexbuf(t[8], &n); memcpy(f.time_update, b, n < 1 ? n : 1); __real_free(b);
+        b = hexbuf(t[6], &n); memcpy(f.time_value, b, n < 10 ? n : 10); hfree(b);
+        b = hexbuf(t[7], &n); memcpy(f.time_error, b, n < 5 ? n : 5); hfree(b);
+        b = hexbuf(t[8], &n); memcpy(f.time_update, b, n < 1 ? n : 1); hfree(b);
         char country[3] = {0, 0, 0};
-        b = hexbuf(t[9], &n); memcpy(country, b, n < 3 ? n : 3); __real_free(b);
+        b = hexbuf(t[9], &n); memcpy(country, b, n < 3 ? n : 3); hfree(b);
         int mt = 0, tu = 0, nf = 0; sscanf(t[11], "%d,%d,%d", &mt, &tu, &nf);
         TAGGED(libwifi_timing_advert, libwifi_create_timing_advert(&o, a1, a2, a3, &f, country, (uint16_t) tok_ll(t[10]), (uint8_t) mt, (uint8_t) tu, (uint8_t) nf),
                libwifi_dump_timing_advert, libwifi_get_timing_advert_length, libwifi_free_timing_advert);
@@ -131,7 +131,7 @@ static void op_gen(int nt, char **t) {
             size_t n; unsigned char *b = hexbuf(t[i] + 2, &n); size_t rr;
             LIB(rr = libwifi_add_action_detail(&o.fixed_parameters.details, b, n));
             printf(" d=%ld", (long) rr);
-            __real_free(b);
+            hfree(b);
         }
         do_dump(&o, (dump_fn) libwifi_dump_action, (len_fn) libwifi_get_action_length, t[nt - 1]);
         LIB(libwifi_free_action(&o));
@@ -143,7 +143,7 @@ static void op_gen(int nt, char **t) {
     else if (!strcmp(k, "cts")) { struct libwifi_cts o; memset(&o, prefill, sizeof o); int r;
         LIB(r = libwifi_create_cts(&o, a1, (uint16_t) tok_ll(t[5]))); printf("gen %d img=", r); out_hex((unsigned char *) &o, sizeof o); }
     else printf("gen unknown-kind");
-    __real_free(a1); __real_free(a2); __real_free(a3);
+    hfree(a1); hfree(a2); hfree(a3);
     if (ledger_live()) printf(" LEAK(%d)", ledger_live());
 }
 
